@@ -359,7 +359,7 @@ def correspondence(chk, KL, n_cases, nr_hi):
             ax = (numpy.arange(ncp * ncp).reshape(ncp, ncp) % ncp - 0.5 * (ncp - 1)) / (0.5 * (ncp - 2 * ncmar))
             phi = (npp / (2 * numpy.pi)) * ((numpy.arctan2(ax.T, ax) + 2 * numpy.pi) % (2 * numpy.pi))   # pcgeom's expression
             op("C13 cp %d %s" % (npp, " ".join(common.f2h(x) for x in phi.ravel())),
-               cmp_floats("pcgeom cp", g["cp"], 0.0, gd))
+               cmp_floats("pcgeom cp", g["cp"], 1e-12 * npp, gd))      # to rounding: φ·npp/2π may be associated differently
             rows = numpy.repeat(numpy.arange(ncp), 3)
             pix = [(int(r), int(c)) for r, c in zip(rows, [rng.randrange(ncp) for _ in rows])]
             pix += [(r, ncp - 1 - k) for r in (ncp // 2 - 1, ncp // 2) for k in (0, 1, 2) if ncp - 1 - k > ncp // 2]
